@@ -68,6 +68,11 @@ Pair2(f) == IF Rel = "swap" THEN Tw!Swapped2(f.a, f.b) ELSE Tw!Same2(f.a, f.b)
 Frac(f)  == IF Rel = "swap" THEN Tw!Complement(f.a, f.b) ELSE EqR(f.a, f.b, Lit("1.0"))
 Ratio(f) == IF Rel = "swap" THEN InverseU(f.a, f.b) ELSE EqR(f.a, f.b, f.a)
 RatioC(f, yy) == IF Rel = "swap" THEN InverseC(f.a, f.b, yy) ELSE SameC(f.a, f.b, yy)
+\* a feed with a trace of one component: the double nearest to "1 - 1e-8" carries a relative error of 1e-16 / 1e-8 in its complement,
+\* so the two statements of the feed are the same state only to that accuracy - the separation factor inherits it
+CondX(yy, xx) == FAdd(Cond(yy), FDiv(Lit("1e-6"), FMax(FMin(xx, FSub(Lit("1.0"), xx)), Lit("1e-300"))))
+RatioCX(f, yy, xx) == IF Rel = "swap" THEN (Usable2(f.a, f.b) => EqR(FMul(f.a, f.b), Lit("1.0"), CondX(yy, xx)))
+                      ELSE EqR(f.a, f.b, FMul(FAbs(f.a), CondX(yy, xx)))
 CurveRel(c) ==
   /\ Len(c.a.J) = Len(c.b.J)
   /\ \A j \in 1..Len(c.a.J) :
@@ -77,9 +82,18 @@ CurveRel(c) ==
        /\ (IF Rel = "swap" THEN InverseC(c.a.sf[j], c.b.sf[j], c.a.y[j]) /\ InverseU(c.a.sel[j], c.b.sel[j])
            ELSE SameC(c.a.sf[j], c.b.sf[j], c.a.y[j]) /\ EqR(c.a.sel[j], c.b.sel[j], c.a.sel[j])
                 /\ SameC(c.a.psi[j], c.b.psi[j], c.a.y[j]))
-FnStrict == /\ (Fn(E.gamma) => Pair2(E.gamma)) /\ (Fn(E.pp) => Pair2(E.pp))
+\* a feed with less than a part per million of one component: both statements of it agree only to 1e-16 / (that fraction), and
+\* extreme built-in parameters amplify this by |ln gamma|; the relations are then asserted component by component to three digits
+\* (a trace flux that is exactly 0 in one statement and finite in the other is still reported)
+IsTrace == FLt(FMin(E.xw, FSub(Lit("1.0"), E.xw)), Lit("1e-6"))
+Coarse(a, b) == (FIsFinite(a) /\ FIsFinite(b)) => FCloseS(a, b, FMax(FAbs(a), FAbs(b)), Lit("1e-3"))
+Pair2T(f) == IF Rel = "swap" THEN Coarse(f.a[1], f.b[2]) /\ Coarse(f.a[2], f.b[1]) ELSE Coarse(f.a[1], f.b[1]) /\ Coarse(f.a[2], f.b[2])
+FnTrace == /\ (Fn(E.pp) => Pair2T(E.pp)) /\ (Fn(E.J) => Pair2T(E.J)) /\ (Fn(E.Jm) => Pair2T(E.Jm)) /\ (Fn(E.J2) => Pair2T(E.J2))
+           /\ (Fn(E.y) => Frac(E.y)) /\ (Fn(E.curve) => CurveRel(E.curve)) /\ (Fn(E.msel) => Ratio(E.msel))
+FnStrict == IF IsTrace THEN FnTrace ELSE
+            /\ (Fn(E.gamma) => Pair2(E.gamma)) /\ (Fn(E.pp) => Pair2(E.pp))
             /\ (Fn(E.J) => Pair2(E.J)) /\ (Fn(E.Jm) => Pair2(E.Jm)) /\ (Fn(E.J2) => Pair2(E.J2))
-            /\ (Fn(E.y) => Frac(E.y)) /\ ((Fn(E.sf) /\ Fn(E.y)) => RatioC(E.sf, E.y.a))
+            /\ (Fn(E.y) => Frac(E.y)) /\ ((Fn(E.sf) /\ Fn(E.y)) => RatioCX(E.sf, E.y.a, E.xw))
             /\ (Fn(E.curve) => CurveRel(E.curve))
             /\ (Fn(E.msel) => Ratio(E.msel))
 Cl_FnRel == (E.ev = "FnTwin") => (FnStrict \/ D3_Excuses)
